@@ -135,6 +135,12 @@ func c07LinesGen(r *rand.Rand) c07LineDoc {
 	d.blocks = append(d.blocks, "inl")
 	fmt.Fprintf(&sb, "fl: [{a: 1}, {a: %d}]\n", r.IntN(9))
 	d.blocks = append(d.blocks, "fl")
+	// identifiers of 64-bit size that differ in the last digit only (as keys and as elements), each with a comment
+	sb.WriteString("owners:\n  123456789012345678: alice # admin\n  223456789012345678: carol\nblocked:\n  - 323456789012345678 # first\n  - 323456789012345679 # second\n  - 5\n")
+	d.blocks = append(d.blocks, "owners", "blocked")
+	// keys one of which a pattern with one star in the middle would also match if prefix and suffix could overlap
+	fmt.Fprintf(&sb, "deps:\n  app-x-prod:\n    replicas: 1%s\n  app-prod:\n    replicas: 2 # keep\n  other:\n    replicas: 3\n", cm())
+	d.blocks = append(d.blocks, "deps")
 	// a map with an entry whose key is the empty string
 	fmt.Fprintf(&sb, "em:\n  \"\": one%s\n  a: %s%s\n  b: [1, 2]\n", cm(), scal(), cm())
 	d.blocks = append(d.blocks, "em")
@@ -173,9 +179,10 @@ func c07LineCase(w *mon.Worker, r *rand.Rand) mon.Result {
 	d := c07LinesGen(r)
 	res := mon.Result{Tags: []string{"family:lines"}}
 	type upd struct {
-		expr string
-		cut  []string // top-level blocks that are (inside) T
-		same string   // an expression that must print the very same document (empty: none)
+		expr   string
+		cut    []string // top-level blocks that are (inside) T
+		same   string   // an expression that must print the very same document (empty: none)
+		addOne bool     // exactly one line comes in, every line of `yq .` stays, in order
 	}
 	var u upd
 	seq := d.seqKeys[r.IntN(len(d.seqKeys))]
@@ -190,7 +197,21 @@ func c07LineCase(w *mon.Worker, r *rand.Rand) mon.Result {
 	if r.IntN(3) == 0 {
 		return c07MultiDelete(d, r)
 	}
-	switch r.IntN(29) {
+	switch r.IntN(35) {
+	case 29:
+		// a key that differs from an existing one in its last digit is a new key: one line comes in, nothing else moves
+		u = upd{expr: `.owners += {123456789012345679: "bob"}`, addOne: true}
+	case 30:
+		u = upd{expr: `.owners[123456789012345679] = "bob"`, addOne: true}
+	case 31:
+		u = upd{expr: `.blocked -= [323456789012345679]`, cut: []string{"blocked"}, same: `del(.blocked[1])`}
+	case 32:
+		u = upd{expr: `.blocked -= [323456789012345678]`, cut: []string{"blocked"}, same: `del(.blocked[0])`}
+	case 33:
+		// a pattern selects the keys it matches in full
+		u = upd{expr: `.deps."app-*-prod".replicas = 3`, cut: []string{"deps"}, same: `.deps."app-x-prod".replicas = 3`}
+	case 34:
+		u = upd{expr: `del(.deps."app-*-prod")`, cut: []string{"deps"}, same: `del(.deps."app-x-prod")`}
 	case 24:
 		// the entry whose key is the empty string, addressed as such: writing the value it has changes nothing
 		u = upd{expr: `.em[""] = "one"`}
@@ -286,7 +307,7 @@ func c07LineCase(w *mon.Worker, r *rand.Rand) mon.Result {
 			return res
 		}
 	}
-	if u.expr == `.cx += ["x"]` {
+	if u.expr == `.cx += ["x"]` || u.addOne {
 		// every line of `yq .` is still there, in order, and exactly one line came in
 		bl, gl := strings.Split(base, "\n"), strings.Split(got, "\n")
 		if len(gl) != len(bl)+1 || !subsequence(bl, gl) {
